@@ -210,7 +210,7 @@ def run(ctx):
     ctx.rule = ("machine-level scenarios on PCE500Emulator.step and CoreRuntime::step: generated main programs over NOP / writes to IMR and ISR / HALT / OFF / WAIT / INC with a JR loop, handlers that acknowledge or not, "
                 "re-enable interrupts or not, and return with RETI; initial IMR over 13 mask values; both timers at periods 2-9 (or off) so expiries fall on every instruction boundary of the loop; ON-key presses at random steps; "
                 "per step: PC, S, C/Z, IMR, ISR, in-interrupt flag, delivery counter, low-power flag and the five bytes below the previous S; the property is evaluated on the trace of each core: gate (master enable, mask, status), "
-                "exact 5-byte frame, master enable cleared, vector, no re-entry, RETI restores PC/F/IMR/S, halted executes nothing and wakes on status, enabled pending request taken within 4 steps; non-trivial = at least one delivery; distinct by scenario")
+                "exact 5-byte frame, master enable cleared, vector, no re-entry, RETI restores PC/F/IMR/S, halted executes nothing and wakes on status, enabled pending request taken within 4 steps, time spent powered off does not change what follows (pairs of runs); non-trivial = at least one delivery; distinct by scenario")
     ctx.trusted += ["correspondence harness: harness/py/irq_cmd.py (PCE500Emulator with a ROM image, public step/press_key, timer fields), verif-harness irq_cmd.rs (CoreRuntime, press_on_key), trace oracle in checks/c12.py",
                     "modelled in Coq: the delivery frame and its inverse RETI over the IL model (Model/Irq.v); NOT modelled: the two controllers' bookkeeping (pending/latched/armed flags) - decided by the trace oracle on both implementations"]
     ctx.assumptions += ["handlers start with a NOP so that a step which delivers and executes the first handler instruction is recognisable on both cores", "BP = 0 so that (BP+0xFB)/(BP+0xFC) address IMR/ISR"]
@@ -230,6 +230,39 @@ def run(ctx):
                 ctx.report([core, "scenario_error"], a[:100], {"case": "irq " + fmt(c)})
                 continue
             oracle(ctx, core, c, a)
+    # a powered-off CPU stops both timers: how long the machine stays off must not matter.  The same scenario (timers running,
+    # OFF in the main loop, the ON key pressed to wake it up) is run with two different numbers of host steps spent off; from
+    # the wake-up step on, the two traces must be identical
+    offc = []
+    for _ in range(200 if ctx.tier == "thorough" else 30):
+        a = ctx.rng.randint(1, 4)          # OFF executes at step a, before the first timer expiry (periods >= 11)
+        main = "00" * a + "df" + "00" * 12
+        main += "13%02x" % (len(main) // 2 + 2)
+        handler = "00" + "ccfc00" + "01"
+        imr0 = ctx.rng.choice([0x89, 0x8B, 0x81, 0x09])
+        mti, sti = ctx.rng.choice([13, 20, 30]), ctx.rng.choice([0, 11, 17])
+        k1 = ctx.rng.randint(1, 4)
+        k2 = k1 + ctx.rng.randint(3, 25)
+        offc.append((a, [(imr0, 1, mti, sti, main, handler, a + 1 + k + 24, f"{a + 1 + k}:onk") for k in (k1, k2)], (k1, k2)))
+    ol = [fmt(c) for _, pair, _ in offc for c in pair]
+    oo = corr.run_streams(ctx, ol, streams)
+    for core in streams:
+        res = oo[core]
+        for j, (a, pair, (k1, k2)) in enumerate(offc):
+            ctx.evaluations += 1
+            r1, r2 = res[2 * j].split(";"), res[2 * j + 1].split(";")
+            if res[2 * j].startswith("ERR") or res[2 * j + 1].startswith("ERR"):
+                ctx.report([core, "scenario_error"], res[2 * j][:100], {"case": "irq " + fmt(pair[0])})
+                continue
+            t1, t2 = r1[a + 1 + k1:a + 1 + k1 + 22], r2[a + 1 + k2:a + 1 + k2 + 22]
+            # delivery counters are cumulative and equal at the wake-up step in both runs; everything else is compared as is
+            if t1 != t2:
+                d = next(i for i in range(min(len(t1), len(t2))) if t1[i] != t2[i]) if len(t1) == len(t2) else -1
+                ctx.report([core, "time_spent_powered_off_changes_what_follows"], f"OFF for {k1} vs {k2} host steps: the traces differ {d} steps after the wake-up ({t1[d] if d >= 0 else len(t1)} vs {t2[d] if d >= 0 else len(t2)})",
+                           {"case": "irq " + fmt(pair[0]), "other": "irq " + fmt(pair[1]), "core": core})
+            else:
+                ctx.nontrivial.add("off:" + fmt(pair[0]))
+    ctx.count("powered_off_pairs", len(offc))
     # the model's frame (Model/Irq.v irq_deliver, extracted) against every frame either implementation pushed
     frames = ctx.extra.pop("_frames", [])
     okm, _ = corr.build_all(ctx, need_rust=False)
